@@ -12,14 +12,17 @@ def tasks(tier):
     heavy = [i for i, n in enumerate(FAMILIES) if n not in ('sym4', 'qr', 'schnorr')]
     for m, t in mpinst.configs(tier):
         for np_ in (False, True):
+            sd = seeds if m <= 5 else seeds[:2]            # 6-7 parties: ~100 s per seed for the permutation group
             for fam in light:
-                T.append(('sx.mpinst', 'concrete_program', (m, t, np_, 'secgrp_ops', fam, 30, seeds)))
+                T.append(('sx.mpinst', 'concrete_program', (m, t, np_, 'secgrp_ops', fam, 30, sd)))
                 if FAMILIES[fam] != 'sym4':
-                    T.append(('sx.mpinst', 'concrete_program', (m, t, np_, 'secgrp_exp', fam, 30, seeds)))
+                    T.append(('sx.mpinst', 'concrete_program', (m, t, np_, 'secgrp_exp', fam, 30, sd)))
     # curve and class groups: every secure operation costs hundreds of resharings in pure Python; fewer configurations and seeds
     for m, t in ((1, 0), (3, 1)) if tier == 'quick' else ((1, 0), (2, 0), (3, 1), (5, 2)):
         for fam in heavy:
-            T.append(('sx.mpinst', 'concrete_program', (m, t, False, 'secgrp_ops', fam, 30, seeds[:1 if tier == 'quick' else 3])))
+            if m == 5 and FAMILIES[fam] == 'cl': continue            # > 300 s per seed
+            ns = 1 if (tier == 'quick' or m == 5) else 3
+            T.append(('sx.mpinst', 'concrete_program', (m, t, False, 'secgrp_ops', fam, 30, seeds[:ns])))
     return T
 
 
